@@ -166,6 +166,11 @@ where
     fn get_list_item(&self, list_addr: Self::Size, item_index: Self::Number) -> Result<Option<Self::Size>, Self::Error> {
         let (len, _) = self.get_from_data_block_ensure_index(list_addr)?.as_list()?;
 
+        // a negative index names no item (converting it would clamp it to the first one)
+        if item_index < Self::Number::from(0) {
+            return Ok(None);
+        }
+
         let index: usize = item_index.into();
 
         if index >= len {
